@@ -229,7 +229,20 @@ func decodeScalar(data []byte, oid int) interface{} {
 	case OidTimeTZ:
 		us := i64(data, 0)
 		tz := i32(data, 8) // timezone offset in seconds
-		return fmt.Sprintf("%02d:%02d:%02d%+03d", us/3600e6, (us/60e6)%60, (us/1e6)%60, -tz/3600)
+		// zone is stored in seconds west of UTC; print +hh[:mm[:ss]] east like PostgreSQL
+		east := -int64(tz)
+		sign := '+'
+		if east < 0 {
+			sign, east = '-', -east
+		}
+		zone := fmt.Sprintf("%c%02d", sign, east/3600)
+		if east%3600 != 0 {
+			zone += fmt.Sprintf(":%02d", east/60%60)
+			if east%60 != 0 {
+				zone += fmt.Sprintf(":%02d", east%60)
+			}
+		}
+		return fmt.Sprintf("%02d:%02d:%02d%s", us/3600e6, (us/60e6)%60, (us/1e6)%60, zone)
 	case OidTimestamp, OidTimestampTZ:
 		us := i64(data, 0)
 		if us == math.MaxInt64 {
